@@ -121,6 +121,7 @@ func init() {
 			cov["states"] = p.Counters["distinct_states"] + p.Counters["histories"] + 1
 			cov["transitions"] = p.Counters["transitions"] + p.Counters["history_transitions"] + 1
 			cov["traces_validated_against_impl"] = p.Counters["executions"] + p.Counters["history_probe_pairs"]
+			cov["preemption_bound_completed_per_scenario"] = boundsCompleted(p)
 			cov["explanation"] = "states/transitions: scheduler states of part (c) plus compressor-history states of part (a); every trace is an execution of the real code"
 		},
 		Replay: func(c *ev.Ctx) {
